@@ -40,7 +40,7 @@ def build_chain(rng, uid_counter):
     for _ in range(depth):
         uid_counter[0] += 1
         for _attempt in range(20):
-            spec = g.gen_class_spec(rng, "%d" % uid_counter[0], base=cut)
+            spec = g.gen_class_spec(rng, "%d" % uid_counter[0], base=cut, extras=True)
             c = g.ClassUnderTest(spec)
             if c.def_error and "No mandatory attributes" in c.def_error[1]:
                 # outside this property's model (C15's table): adjust and retry
